@@ -34,11 +34,22 @@ fn path_of(ctx: &Context<'_>) -> J {
     }
 }
 
-pub const ALL_FIELD_NAMES: &[&str] = &["id", "label", "peer", "n", "nn", "f", "fnn", "e", "self", "selfNN", "kids", "kidsNN", "opt", "u", "fail", "guarded", "b", "a", "ann", "node", "nodes", "us", "bump", "bumpA"];
+pub const ALL_FIELD_NAMES: &[&str] = &["id", "label", "peer", "n", "nn", "f", "fnn", "e", "self", "selfNN", "kids", "kidsNN", "opt", "u", "fail", "guarded", "arg", "b", "a", "ann", "node", "nodes", "us", "bump", "bumpA"];
 
 pub fn views(ctx: &Context<'_>) -> J {
     // selection-field view: names (with aliases) of the direct sub-fields, fragments followed
-    let sel: Vec<J> = ctx.field().selection_set().map(|f| json!({"name": f.name(), "alias": f.alias().unwrap_or("")})).collect();
+    let sel: Vec<J> = ctx.field().selection_set().map(|f| {
+        // the arguments the view reports for the sub-field (resolved: variables substituted, omitted ones absent)
+        let args: Vec<J> = match f.arguments() {
+            Ok(a) => a.iter().map(|(n, v)| json!({"name": n.as_str(), "val": match v {
+                Value::Number(x) => json!({"k": "int", "v": x.to_string()}),
+                Value::Null => json!({"k": "null"}),
+                other => json!({"k": "other", "v": other.to_string()}),
+            }})).collect(),
+            Err(_) => vec![json!({"name": "<error>", "val": {"k": "null"}})],
+        };
+        json!({"name": f.name(), "alias": f.alias().unwrap_or(""), "args": args})
+    }).collect();
     // look-ahead view: which of the family's field names the look-ahead reports directly below this field
     let la: Vec<J> = ALL_FIELD_NAMES.iter().filter(|n| ctx.look_ahead().field(n).exists()).map(|n| json!(n)).collect();
     json!({"sel": sel, "la": la})
@@ -111,6 +122,8 @@ impl A {
     async fn label(&self, ctx: &Context<'_>) -> Option<Result<String>> { opt(&resolve(ctx, &self.0, "label").await) }
     async fn peer(&self, ctx: &Context<'_>) -> Option<Result<Node>> { opt(&resolve(ctx, &self.0, "peer").await) }
     async fn n(&self, ctx: &Context<'_>) -> Option<Result<i32>> { opt(&resolve(ctx, &self.0, "n").await) }
+    /// a field with arguments (C22: views must report the resolved arguments of sub-fields)
+    async fn arg(&self, ctx: &Context<'_>, x: Option<i32>, y: Option<i32>) -> Option<Result<i32>> { let _ = (x, y); opt(&resolve(ctx, &self.0, "arg").await) }
     async fn nn(&self, ctx: &Context<'_>) -> Result<i32> { req(&resolve(ctx, &self.0, "nn").await) }
     async fn f(&self, ctx: &Context<'_>) -> Option<Result<f64>> { opt(&resolve(ctx, &self.0, "f").await) }
     async fn fnn(&self, ctx: &Context<'_>) -> Result<f64> { req(&resolve(ctx, &self.0, "fnn").await) }
